@@ -11,10 +11,13 @@
    * deleting the pads yields the plain code;
    * the do-while loop never needs a third round;
    * chunk sizes below 2 switch fitting off.
-  (That every NOP-table entry decodes to exactly one x86 NOP is `nop_entries_decode` in
-  AL.Properties.C13Nop, against the decoder specification.)
+   * `second_assembly_same`: the fitting loop assembles a padded instruction a SECOND time from the record the first
+     assembly left behind (the `ib` slot marks it): the second assembly emits the same machine code, for every record —
+     which is why the layout above can speak of "the" code of an instruction.
+  (That every NOP-table entry decodes to exactly one x86 NOP is `C01.nop_table_decodes`, against the decoder specification.)
 -/
 import AL.Lemmas.Layout
+import AL.Lemmas.Reassemble
 namespace AL.Properties.C13
 open AL AL.Impl AL.Gen AL.Lemmas
 
@@ -163,5 +166,11 @@ theorem fitting_call (lfo : LineFnOf) (a : Inst) (text : Str) (c : Nat) (hc : 2 
 /-- non-vacuity of the hypotheses of `instruction_in_one_chunk` and a concrete padded layout:
     chunk 8, a 3-byte and a 7-byte instruction from position 6: both padded -/
 example : padsOf 8 6 [[1, 2, 3], [4, 5, 6, 7, 8, 9, 10]] = [[102, 144], [15, 31, 68, 0, 0]] := by decide
+
+/-- **the second assembly of a padded instruction**: `assemble_asm` on the record its first call left behind gives the same
+    bytes and leaves the same record (so a third, fourth … call would too) -/
+theorem second_assembly_same (s : Instr) :
+    assembleAsm (assembleInstr s).1 = assembleAsm s ∧ (assembleInstr (assembleInstr s).1).1 = (assembleInstr s).1 :=
+  ⟨assembleAsm_again s, by rw [assembleInstr_again s]⟩
 
 end AL.Properties.C13
